@@ -137,9 +137,11 @@ def run(prop, cfg, tier, seed):
         nq_f, nt_f = cfg["front_model"]
         fviol, fcov = front_model.run(prop, tier, seed, nq_f, nt_f)
         tool_reports["front-model"] = fcov
-        for (kind, d, _) in fviol:
+        for (kind, d, failing) in fviol:
             d = dict(d)
             d.update(tool="front-model", kind=kind)
+            if not failing:
+                d["no_failing_input"] = True
             tool_fail.append(d)
 
     # ---- the analysis the runtime relies on (C08): the builder's leader marks must cover every cycle of its first graph
@@ -263,7 +265,9 @@ def run(prop, cfg, tier, seed):
         f.update({"property": prop, "kind": "%s/%s" % (f["tool"], k0),
                   "property_fails_on_impl": [f.get("detail") or f.get("kind") or "failure"]})
         name = "%s_%s_%s" % (f["tool"], k0, hashlib.md5(json.dumps(f, sort_keys=True, default=str).encode()).hexdigest()[:10])
-        printed.append("VIOLATION property=%s replay=%s" % (prop, core.write_replay(prop, name, f)))
+        if f.get("no_failing_input"):
+            f["property_fails_on_impl"] = []
+        printed.append("VIOLATION property=%s replay=%s%s" % (prop, core.write_replay(prop, name, f), " no-failing-input-found" if f.get("no_failing_input") else ""))
     # oracle violations first: they carry a concrete failing input
     for d in sr.oracle_viol[:3]:
         report("oracle", d[0], d[1], d[2], d[3], d[4] if len(d) > 4 else None)
